@@ -36,7 +36,8 @@ structure Cfg where
   aacChecked : Bool
   /-- `SyncClock.Decode`: `len(data) >= 20` checked before indexing -/
   srChecked : Bool
-  /-- `writeFrame` (H.264 / H.265): an in-band parameter set replaces the stored one until the metadata is ready -/
+  /-- `writeFrame` (H.264 / H.265): an in-band parameter set replaces the stored one while the stored
+      sets are unvalidated (`unvalidated()`: not ready and no picture size decoded from the SDP's sets) -/
   psUntilReady264 : Bool
   psUntilReady265 : Bool
   /-- `aacDepacketizer.indexLength` -/
@@ -121,8 +122,8 @@ def h264WriteFrame (cfg : Cfg) (spsOk : Bytes → Bool) (st : VSt) (ts : UInt32)
     else
       let m := st.vmeta
       let m :=
-        if t = 7 then (if m.sps.isEmpty || (cfg.psUntilReady264 && !st.ready) then { m with sps := payload } else m)
-        else if t = 8 then (if m.pps.isEmpty || (cfg.psUntilReady264 && !st.ready) then { m with pps := payload } else m)
+        if t = 7 then (if m.sps.isEmpty || (cfg.psUntilReady264 && !st.ready && !m.widthKnown) then { m with sps := payload } else m)
+        else if t = 8 then (if m.pps.isEmpty || (cfg.psUntilReady264 && !st.ready && !m.widthKnown) then { m with pps := payload } else m)
         else m
       let st := { st with vmeta := m }
       if !st.ready && !h264MetaReady spsOk m then ⟨st, [], .ok⟩
@@ -216,7 +217,7 @@ def h265WriteFrame (cfg : Cfg) (spsOk : Bytes → Bool) (st : VSt) (ts : UInt32)
   | b0 :: _ =>
     let t := nalType265 b0
     let m := st.vmeta
-    let upd := cfg.psUntilReady265 && !st.ready
+    let upd := cfg.psUntilReady265 && !st.ready && !m.widthKnown
     let m :=
       if t = 32 then (if m.vps.isEmpty || upd then { m with vps := payload } else m)
       else if t = 33 then (if m.sps.isEmpty || upd then { m with sps := payload } else m)
